@@ -70,8 +70,8 @@ CHECKS = {
  "C14": dict(
     level=TV, design="2/C14", engine="tvsmt",
     technique="SMT translation validation: block expressions returned by the real remove_tensor are re-contracted with the canonical tensor blocks (documented normalisation) and compared with the input by z3; the symmetry of each block expression is checked by z3; derivative blocks contracted with a free variation tensor are compared by z3 with the first-order coefficient of expr(T + eps dT)",
-    text="Generated expressions (Einstein-unambiguous) with removable tensors of ranks 1|1, 2|2, 2|1, non-symmetric rank 2/3, bra-ket 0/+1/-1 and ADC amplitude vectors, incl. target-carrying and repeated indices on the removed tensor and spin-labelled indices (mixed spin blocks); derivative with 1-2 occurrences and exponent 2.",
-    note="remove_tensor: one occurrence per term (normalisation for several occurrences is undocumented: outside); derivative: all tensor indices contracted (with target indices on the tensor the block result carries no deltas: outside). Normalisation c/|G| fixed from the docstrings."),
+    text="Generated expressions (Einstein-unambiguous) with removable tensors of ranks 1|1, 2|2, 2|1, non-symmetric rank 2/3, bra-ket 0/+1/-1 and ADC amplitude vectors, incl. target-carrying and repeated indices on the removed tensor, two occurrences contracted with each other, explicit target indices and spin-labelled indices (mixed spin blocks); derivative with 1-2 occurrences and exponent 2.",
+    note="remove_tensor: one or two occurrences (exponent 1) per term, with two the copy named first in the sorted key carries the lowest non-target index names; derivative: all tensor indices contracted (with target indices on the tensor the block result carries no deltas: outside). Normalisation c/|G| fixed from the docstrings."),
  "C13": dict(
     level=TV, design="2/C13", engine="tvsmt",
     technique="SMT translation validation of the orbital-energy fraction algebra: input and actual output of each real operation encoded over symbolic orbital energies and tensor entries; two-stage decision (free inverse-bracket unknowns, then denominators cleared per outer monomial) by z3",
@@ -86,7 +86,7 @@ CHECKS = {
     level=TV, design="2/C17", engine="tvsmt",
     technique="the text emitted by the real generate_code (einsum and libtensor) is parsed and evaluated by an independent interpreter that returns polynomials in symbolic tensor entries (nested contractions, block names checked against index letters, prefactors, permutation operators applied to the target assignment); z3 decides equality with the expression's value for all entries and all target assignments in the requested order",
     text="Generated expressions (single tensors, traces, outer products, nested contractions, symmetry partners, second terms built from the same objects with re-wired contracted indices) x 11 target-string shapes in random requested order x bra-ket 0/+1/-1 x (anti)symmetric result x both back ends x optimised/unoptimised x limits.",
-    note="Models <=2o2v; inputs with non-unique index names or ambiguous printed block names are skipped and counted; documented NotImplementedError refusals give no verdict (in this sympy version every sqrt prefactor is refused: the branch compares the exponent with the float 0.5)."),
+    note="Models <=2o2v; scalar literals of libtensor (C++) lines follow C++ arithmetic (integer literal / integer literal truncates); inputs with non-unique index names or ambiguous printed block names are skipped and counted; documented NotImplementedError refusals give no verdict (in this sympy version every sqrt prefactor is refused: the branch compares the exponent with the float 0.5)."),
  "C12": dict(
     level=TV, design="2/C12", engine="detref",
     technique="z3 identity check of every registered intermediate's expanded definition (once and fully expanded; default, permuted, shifted and numbered index tuples) against explicit RSPT amplitudes / densities / RE residuals computed on occupation bit strings, against the independently derived residuals, and against its own lower-level expansion; declared tensor symmetries checked by z3 on the expanded expression",
